@@ -1,5 +1,5 @@
 From Coq Require Import Arith.
-From Rws Require Import Str Utf8 Num Request StrLemmas Utf8Lemmas TrimLemmas.
+From Rws Require Import Str Utf8 Num Unicase Request StrLemmas Utf8Lemmas TrimLemmas.
 Open Scope N_scope.
 
 (* ---- the first ": " of a line whose name has no ':' ---- *)
@@ -82,8 +82,8 @@ Qed.
 Definition head_solid (s : bytes) : bool := match s with c :: _ => solid c | [] => false end.
 Definition last_solid (s : bytes) : bool := head_solid (rev s).
 Record wf_request (r : request) : Prop := {
-  wr_method : mem (upper (method r)) methods = true;
-  wr_version : mem (upper (version r)) versions = true;
+  wr_method : mem (uupper (method r)) methods = true;
+  wr_version : mem (uupper (version r)) versions = true;
   wr_m_head : head_solid (method r) = true;
   wr_v_last : last_solid (version r) = true;
   wr_m_nosp : ~ In 32 (method r);
